@@ -4,6 +4,7 @@ go 1.26.0
 
 require (
 	github.com/canopy-network/canopy v0.0.0
+	github.com/cockroachdb/pebble/v2 v2.1.6
 	google.golang.org/protobuf v1.36.11
 )
 
@@ -21,7 +22,6 @@ require (
 	github.com/cockroachdb/crlib v0.0.0-20251122031428-fe658a2dbda1 // indirect
 	github.com/cockroachdb/errors v1.14.0 // indirect
 	github.com/cockroachdb/logtags v0.0.0-20241215232642-bb51bb14a506 // indirect
-	github.com/cockroachdb/pebble/v2 v2.1.6 // indirect
 	github.com/cockroachdb/redact v1.1.8 // indirect
 	github.com/cockroachdb/swiss v0.0.0-20251224182025-b0f6560f979b // indirect
 	github.com/cockroachdb/tokenbucket v0.0.0-20250429170803-42689b6311bb // indirect
